@@ -8,6 +8,7 @@ import (
 	"encoding/json"
 	"fmt"
 	eth2spec "github.com/attestantio/go-eth2-client/spec"
+	eth2p0 "github.com/attestantio/go-eth2-client/spec/phase0"
 	"sort"
 	"testing"
 
@@ -29,7 +30,7 @@ const rule = "every Eth2SignedData type x fork version (testutil fuzzer, seed dr
 	"oracle: no corruption -> every subscriber gets per validator an object whose signature verifies under the group key for the specsign signing root of its own content and whose unsigned content equals what was signed; any corruption -> error and no subscriber call; " +
 	"non-trivial = multi-validator call or corruption present; distinct by (type, seeds, n, t, subset, corruption)"
 
-var corruptions = []string{"none", "none", "none", "too_few", "repeat_share", "other_content", "wrong_share_key", "wrong_index", "other_message", "truncated", "overlong", "zero_sig"}
+var corruptions = []string{"none", "none", "none", "all_signed_for_fork_of_epoch_0", "too_few", "repeat_share", "other_content", "wrong_share_key", "wrong_index", "other_message", "truncated", "overlong", "zero_sig"}
 
 func unsignedJSON(rt *rapid.T, d core.SignedData) string {
 	z, err := d.SetSignature(make(core.Signature, 96))
@@ -185,6 +186,29 @@ func TestC09Aggregate(t *testing.T) {
 					rt.Skip("other value has the same signing spec")
 				}
 				switch corruption {
+				case "all_signed_for_fork_of_epoch_0":
+					// every share signs the right content, but for the signing domain of the fork that was
+					// active at epoch 0 instead of the object's own epoch: a consistent set, invalid for the object
+					own := specsign.DomainOf(bn, spec)
+					zero := specsign.DomainOf(bn, specsign.Spec{Domain: spec.Domain, Epoch: 0, Root: spec.Root})
+					if own == zero {
+						rt.Skip("the object's own domain is the domain of epoch 0")
+					}
+					sr, err := (&eth2p0.SigningData{ObjectRoot: spec.Root, Domain: zero}).HashTreeRoot()
+					if err != nil {
+						rt.Fatalf("HARNESS-ERROR: %v", err)
+					}
+					for pi := range parts {
+						sg, err := tbls.Sign(shares[parts[pi].ShareIdx], sr[:])
+						if err != nil {
+							rt.Fatalf("HARNESS-ERROR: %v", err)
+						}
+						moved, err := v.SetSignature(core.Signature(sg[:]))
+						if err != nil {
+							rt.Fatalf("HARNESS-ERROR: %v", err)
+						}
+						parts[pi] = core.ParSignedData{SignedData: moved, ShareIdx: parts[pi].ShareIdx}
+					}
 				case "too_few":
 					parts = parts[:thr-1]
 				case "repeat_share":
@@ -248,7 +272,22 @@ func TestC09Aggregate(t *testing.T) {
 			fpParts = append(fpParts, fmt.Sprintf("%d:%v", seed, subset))
 		}
 		duty := core.Duty{Slot: 11, Type: k.Duty}
+		// a third of the calls meet a beacon node whose next one or two configuration requests fail (a
+		// transient fault): the call may then fail as a whole, but it must not publish what is not valid
+		specFaults := 0
+		if rapid.IntRange(0, 2).Draw(rt, "beaconSpecFault") == 0 {
+			specFaults = rapid.IntRange(1, 2).Draw(rt, "specFaults")
+			bn.Fail("spec", specFaults)
+		}
 		err = agg.Aggregate(ctx, duty, input)
+		bn.Fail("spec", 0)
+		if corruption == "none" && specFaults > 0 && err != nil {
+			if len(got) != 0 {
+				rt.Fatalf("SUBSCRIBER CALLED DESPITE ERROR: %s: %d subscriber calls although Aggregate returned %v (transient beacon fault)", k.Name, len(got), err)
+			}
+			vstat.Case("", false, "honest_call_failed_on_transient_beacon_fault")
+			return
+		}
 		if corruption != "none" {
 			if err == nil {
 				rt.Fatalf("PUBLISHED DESPITE CORRUPTION: %s/%s of validator %d (n=%d t=%d, %d validators): Aggregate returned nil", k.Name, corruption, corruptVal, n, thr, nVals)
@@ -343,7 +382,7 @@ func TestC09Aggregate(t *testing.T) {
 		spec0, _ := specsign.Of(bn, vals[0].value)
 		fork := bn.ForkAt(spec0.Epoch).Name
 		nontrivial := nVals > 1 || corruption != "none" || followUp != "none"
-		vstat.Case(fmt.Sprintf("%s/%d/%d/%s/%s/%s", k.Name, n, thr, corruption, followUp, fpParts), nontrivial, "type:"+k.Name, "corruption:"+corruption, "second_call:"+followUp, "fork_of_epoch:"+fork, cls("multi_validator", nVals > 1))
+		vstat.Case(fmt.Sprintf("%s/%d/%d/%s/%s/%s", k.Name, n, thr, corruption, followUp, fpParts), nontrivial, "type:"+k.Name, "corruption:"+corruption, "second_call:"+followUp, cls("transient_beacon_spec_fault", specFaults > 0), "fork_of_epoch:"+fork, cls("multi_validator", nVals > 1))
 		if nontrivial && vstat.WantSample(corruption) {
 			vstat.Sample(corruption, map[string]any{"type": k.Name, "n": n, "t": thr, "validators": nVals, "corruption": corruption, "subsets": fpParts, "domain": spec0.Domain, "fork_of_epoch": fork})
 		}
